@@ -421,7 +421,8 @@ def property_scope(prop_id: str):
 
 def python_slips_rule(model, rep, prop_id: str):
     """Slips of the Python data model in the modules this property rests on (qcolint.pylints): reported only in shapes in which they are certain."""
-    from ..pylints import scan
+    from ..pylints import scan, self_check
+    self_check()
     files = property_scope(prop_id)
     if not files:
         raise AnalysisError(f"{prop_id}: no anchor files in properties.jsonl")
